@@ -152,7 +152,7 @@ class InvertedDoublePendulum(
         v1, v2 = data.qvel[1], data.qvel[2]
 
         return {
-            "dist_penalty": 0.01 * x**2 + (y - 2) ** 2,
-            "vel_penalty": 1e-3 * v1**2 + 5e-3 * v2**2,
-            "alive_bonus": (y > 1).astype(float) * self.healthy_reward,
+            "reward_survive": (y > 1).astype(float) * self.healthy_reward,
+            "distance_penalty": -(0.01 * x**2 + (y - 2) ** 2),
+            "velocity_penalty": -(1e-3 * v1**2 + 5e-3 * v2**2),
         }
